@@ -769,5 +769,190 @@ example :
     norm_num [direction, Vec.normSqr, Vec.dot, Scalar.beq, Scalar.zero, Scalar.one, Scalar.ofRat, stepInfeasibleAt,
       eps, clip, clipStep, cauchy, Scalar.min]
 
+/-! ### the repaired variants of the direction -/
+
+/-- component of `directionV v pp pBp cs` belonging to the coordinate record `c` -/
+def dirCoordV (v : Variant) (pp pBp : Rat) (cs : List (BoxCoord Rat)) (c : BoxCoord Rat) : Rat :=
+  if Scalar.beq (Vec.normSqr (cs.map (·.p0))) Scalar.zero then c.p0
+  else if !(cs.any stepInfeasibleAt) then c.step
+  else if clipV v (·.x) (cauchyV v pp pBp) cs Scalar.one < Scalar.one then
+    clipV v (·.x) (cauchyV v pp pBp) cs Scalar.one * cauchyV v pp pBp c
+  else cauchyV v pp pBp c +
+    clipV v (fun c => c.x + cauchyV v pp pBp c) (fun c => c.step - cauchyV v pp pBp c) cs Scalar.one
+      * (c.step - cauchyV v pp pBp c)
+
+theorem directionV_eq_map (v : Variant) (pp pBp : Rat) (cs : List (BoxCoord Rat)) :
+    directionV v pp pBp cs = cs.map (dirCoordV v pp pBp cs) := by
+  unfold directionV dirCoordV
+  by_cases h1 : Scalar.beq (Vec.normSqr (cs.map (·.p0))) (Scalar.zero : Rat) = true
+  · simp only [if_pos h1]
+  · simp only [if_neg h1]
+    by_cases h2 : (!(cs.any stepInfeasibleAt)) = true
+    · simp only [if_pos h2]
+    · simp only [if_neg h2]
+      by_cases h3 : clipV v (·.x) (cauchyV v pp pBp) cs Scalar.one < (Scalar.one : Rat)
+      · simp only [if_pos h3]
+      · simp only [if_neg h3]
+
+theorem clipV_sign (v : Variant) (hv : v.clipBySign = true) (pt d : BoxCoord Rat → Rat) (cs : List (BoxCoord Rat)) (a0 : Rat) :
+    clipV v pt d cs a0 = clipS pt d cs a0 := by
+  unfold clipV clipS; rw [hv]; rfl
+
+/-- the factor `k` with `cauchy_i = k · p0_i` -/
+def cauchyFactor (v : Variant) (pp pBp : Rat) : Rat := bif v.cauchyScaled then pp / pBp else 1 / pBp
+
+theorem cauchyV_eq (v : Variant) (pp pBp : Rat) (c : BoxCoord Rat) :
+    cauchyV v pp pBp c = cauchyFactor v pp pBp * c.p0 := by
+  unfold cauchyV cauchyFactor cauchy
+  cases v.cauchyScaled with
+  | true => show c.p0 * (pp / pBp) = pp / pBp * c.p0; ring
+  | false => show c.p0 / pBp = 1 / pBp * c.p0; ring
+
+theorem cauchyFactor_pos (v : Variant) (pp pBp : Rat) (hpp : 0 < pp) (hB : 0 < pBp) : 0 < cauchyFactor v pp pBp := by
+  unfold cauchyFactor
+  cases v.cauchyScaled with
+  | true => exact div_pos hpp hB
+  | false => exact div_pos one_pos hB
+
+/-- **box_direction_feasible_repaired.**  With the clipping loops that choose the bound by the sign of the direction
+(findings F-C10-12/13 repaired; either Cauchy variant), `x + direction` is inside the box for EVERY point inside the
+box: no hypothesis about the Cauchy point touching a bound, none about the implicit matrices. -/
+theorem box_direction_feasible_repaired (v : Variant) (hv : v.clipBySign = true) (pp pBp : Rat)
+    (cs : List (BoxCoord Rat))
+    (hok : ∀ c ∈ cs, c.l ≤ c.x ∧ c.x ≤ c.u ∧ (c.act = false → c.p0 = 0 ∧ c.step = 0))
+    (c : BoxCoord Rat) (hc : c ∈ cs) :
+    c.l ≤ c.x + dirCoordV v pp pBp cs c ∧ c.x + dirCoordV v pp pBp cs c ≤ c.u := by
+  obtain ⟨hlx, hxu, hblk⟩ := hok c hc
+  have hstep : stepInfeasibleAt c = false → c.act = true → c.l ≤ c.x + c.step ∧ c.x + c.step ≤ c.u := by
+    intro hnone hact
+    unfold stepInfeasibleAt at hnone
+    simp only [hact, Bool.true_and, Bool.or_eq_false_iff, decide_eq_false_iff_not, not_lt] at hnone
+    have he := eps_pos
+    constructor <;> linarith [hnone.1, hnone.2]
+  have hcau0 : ∀ c' : BoxCoord Rat, c'.p0 = 0 → cauchyV v pp pBp c' = 0 := by
+    intro c' h; rw [cauchyV_eq, h]; ring
+  have stage1 : ∀ c' ∈ cs, c'.l ≤ c'.x + clipS (·.x) (cauchyV v pp pBp) cs 1 * cauchyV v pp pBp c' ∧
+      c'.x + clipS (·.x) (cauchyV v pp pBp) cs 1 * cauchyV v pp pBp c' ≤ c'.u := by
+    intro c' hc'
+    obtain ⟨h1, h2, h3⟩ := hok c' hc'
+    exact clipS_move_feasible (·.x) (cauchyV v pp pBp) cs c' hc' h1 h2 (fun h => hcau0 c' (h3 h).1)
+  unfold dirCoordV
+  by_cases h1 : Scalar.beq (Vec.normSqr (cs.map (·.p0))) (Scalar.zero : Rat) = true
+  · simp only [if_pos h1]
+    have hz := beq_zero_true _ h1
+    unfold Vec.normSqr at hz
+    rw [dot_map_map] at hz
+    have := sumsq_zero cs (·.p0) hz c hc
+    rw [this]; constructor <;> linarith
+  · simp only [if_neg h1]
+    by_cases h2 : (!(cs.any stepInfeasibleAt)) = true
+    · simp only [if_pos h2]
+      have hnone : stepInfeasibleAt c = false := by
+        by_contra hne
+        have : cs.any stepInfeasibleAt = true := List.any_eq_true.mpr ⟨c, hc, by simpa using hne⟩
+        simp [this] at h2
+      cases hact : c.act with
+      | false => rw [(hblk hact).2]; constructor <;> linarith
+      | true => exact hstep hnone hact
+    · simp only [if_neg h2]
+      rw [clipV_sign v hv, clipV_sign v hv]
+      have hle : clipS (·.x) (cauchyV v pp pBp) cs (1 : Rat) ≤ 1 := clipS_le _ _ cs 1
+      by_cases h3 : clipS (·.x) (cauchyV v pp pBp) cs Scalar.one < (Scalar.one : Rat)
+      · simp only [if_pos h3]
+        exact stage1 c hc
+      · simp only [if_neg h3]
+        have h1' : clipS (·.x) (cauchyV v pp pBp) cs (1 : Rat) = 1 := le_antisymm hle (not_lt.mp h3)
+        have hcp := stage1 c hc
+        rw [h1', one_mul] at hcp
+        have hm := clipS_move_feasible (fun c => c.x + cauchyV v pp pBp c) (fun c => c.step - cauchyV v pp pBp c) cs c hc
+          hcp.1 hcp.2
+          (fun h => by
+            have hb := hblk h
+            show c.step - cauchyV v pp pBp c = 0
+            rw [hb.2, hcau0 c hb.1]; ring)
+        constructor
+        · have := hm.1
+          show c.l ≤ c.x + (cauchyV v pp pBp c + clipS _ _ cs 1 * (c.step - cauchyV v pp pBp c)); linarith
+        · have := hm.2
+          show c.x + (cauchyV v pp pBp c + clipS _ _ cs 1 * (c.step - cauchyV v pp pBp c)) ≤ c.u; linarith
+
+/-- **box_direction_descent_repaired.**  Repaired clipping loops, either Cauchy variant: for a point inside the box
+(`CoordOK`), positive `p0ᵀBp0`, `p0ᵀp0`, `p0ᵀB⁻¹p0`, the direction satisfies `Σ p0ᵢ·dᵢ > 0`, i.e. `gᵀd < 0`.  Here the
+positivity of the first step length needs the active-set rule: a movable variable has room (≥ eps) in the direction it
+wants to move. -/
+theorem box_direction_descent_repaired (v : Variant) (hv : v.clipBySign = true) (pp pBp : Rat) (hpp : 0 < pp) (hB : 0 < pBp)
+    (cs : List (BoxCoord Rat)) (hok : ∀ c ∈ cs, CoordOK c)
+    (hp : 0 < (cs.map fun c => c.p0 * c.p0).sum) (hs : 0 < (cs.map fun c => c.p0 * c.step).sum) :
+    0 < (cs.map fun c => c.p0 * dirCoordV v pp pBp cs c).sum := by
+  have hk := cauchyFactor_pos v pp pBp hpp hB
+  set k := cauchyFactor v pp pBp with hkdef
+  unfold dirCoordV
+  by_cases h1 : Scalar.beq (Vec.normSqr (cs.map (·.p0))) (Scalar.zero : Rat) = true
+  · simp only [if_pos h1]; exact hp
+  · simp only [if_neg h1]
+    by_cases h2 : (!(cs.any stepInfeasibleAt)) = true
+    · simp only [if_pos h2]; exact hs
+    · simp only [if_neg h2]
+      rw [clipV_sign v hv, clipV_sign v hv]
+      have hpos : 0 < clipS (·.x) (cauchyV v pp pBp) cs (1 : Rat) := by
+        apply clipS_pos _ _ cs 1 (by norm_num)
+        intro c hc hact hd
+        have ok := hok c hc
+        unfold signQuot
+        rw [cauchyV_eq] at hd ⊢
+        by_cases hsgn : (Scalar.zero : Rat) < k * c.p0
+        · rw [if_pos hsgn]
+          have hp0 : 0 < c.p0 := by
+            by_contra hn
+            have : k * c.p0 ≤ 0 := mul_nonpos_of_nonneg_of_nonpos (le_of_lt hk) (not_lt.mp hn)
+            exact absurd hsgn (not_lt.mpr this)
+          exact div_pos (by linarith [ok.roomU hact hp0]) hsgn
+        · rw [if_neg hsgn]
+          have hneg : k * c.p0 < 0 := lt_of_le_of_ne (not_lt.mp hsgn) hd
+          have hp0 : c.p0 < 0 := by
+            by_contra hn
+            have : 0 ≤ k * c.p0 := mul_nonneg (le_of_lt hk) (not_lt.mp hn)
+            linarith
+          exact div_pos_of_neg_of_neg (by linarith [ok.roomL hact hp0]) hneg
+      by_cases h3 : clipS (·.x) (cauchyV v pp pBp) cs Scalar.one < (Scalar.one : Rat)
+      · simp only [if_pos h3]
+        set a := clipS (·.x) (cauchyV v pp pBp) cs (Scalar.one : Rat) with ha
+        have hfun : (fun c : BoxCoord Rat => c.p0 * (a * cauchyV v pp pBp c)) = fun c => (a * k) * (c.p0 * c.p0) := by
+          funext c; rw [cauchyV_eq]; ring
+        rw [hfun, List.sum_map_mul_left]
+        have : 0 < a * k := mul_pos hpos hk
+        positivity
+      · simp only [if_neg h3]
+        set a2 := clipS (fun c => c.x + cauchyV v pp pBp c) (fun c => c.step - cauchyV v pp pBp c) cs (Scalar.one : Rat) with ha2
+        have hnn : 0 ≤ a2 := clipS_nonneg _ _ cs 1 (by norm_num)
+        have hle : a2 ≤ 1 := clipS_le _ _ cs 1
+        have hfun : (fun c : BoxCoord Rat => c.p0 * (cauchyV v pp pBp c + a2 * (c.step - cauchyV v pp pBp c)))
+            = fun c => ((1 - a2) * k) * (c.p0 * c.p0) + a2 * (c.p0 * c.step) := by
+          funext c; rw [cauchyV_eq]; ring
+        rw [hfun, List.sum_map_add, List.sum_map_mul_left, List.sum_map_mul_left]
+        rcases lt_or_eq_of_le hle with hlt | heq
+        · have h4 : 0 < (1 - a2) * k := mul_pos (by linarith) hk
+          have h5 : 0 < (1 - a2) * k * (cs.map fun c => c.p0 * c.p0).sum := mul_pos h4 hp
+          have h6 : 0 ≤ a2 * (cs.map fun c => c.p0 * c.step).sum := mul_nonneg hnn (le_of_lt hs)
+          linarith
+        · rw [heq]; simp only [sub_self, zero_mul, one_mul, zero_add]; exact hs
+
+/-- **box_direction_nonzero_repaired.** -/
+theorem box_direction_nonzero_repaired (v : Variant) (hv : v.clipBySign = true) (pp pBp : Rat) (hpp : 0 < pp) (hB : 0 < pBp)
+    (cs : List (BoxCoord Rat)) (hok : ∀ c ∈ cs, CoordOK c)
+    (hp : 0 < (cs.map fun c => c.p0 * c.p0).sum) (hs : 0 < (cs.map fun c => c.p0 * c.step).sum) :
+    ∃ d ∈ directionV v pp pBp cs, d ≠ 0 := by
+  by_contra hall
+  have hall' : ∀ d ∈ directionV v pp pBp cs, d = 0 := by
+    intro d hd; by_contra hne; exact hall ⟨d, hd, hne⟩
+  have hd := box_direction_descent_repaired v hv pp pBp hpp hB cs hok hp hs
+  have hz : (cs.map fun c => c.p0 * dirCoordV v pp pBp cs c).sum = 0 := by
+    apply List.sum_eq_zero
+    intro x hx
+    obtain ⟨c, hc, rfl⟩ := List.mem_map.mp hx
+    have : dirCoordV v pp pBp cs c = 0 := hall' _ (by rw [directionV_eq_map]; exact List.mem_map.mpr ⟨c, hc, rfl⟩)
+    rw [this]; ring
+  linarith
+
 end SharkVerif.C10.Box
 
